@@ -59,7 +59,7 @@ CHECKS = {
     },
     'C20': {
         'engine': 'detcompile',
-        'technique': 'deterministic simulation of the compiler\'s environment: tzcompiler.py re-run under seeded perturbations (hash seed, jumping clock, shuffled directory listings, pid, random, TZ, locale, umask, cwd, environment variables, stdio kind, stale outputs, an earlier compilation of another source by the same user, an earlier compilation in the same interpreter) and byte comparison of all outputs',
+        'technique': 'deterministic simulation of the compiler\'s environment: tzcompiler.py re-run under seeded perturbations (hash seed, jumping clock, shuffled directory listings, pid, random, TZ, locale, umask, cwd, environment variables, stdio kind, stale outputs, an earlier compilation of another source by the same user, an earlier compilation in the same interpreter, a home directory that is a prefix of a command-line path) and byte comparison of all outputs',
         'text': 'Decides clause 1 only ("compiling the same source twice produces identical files"): the real tzcompiler.py is run in fresh interpreters over a TZ source reconstructed from the zonedbx tables, for scope x language x action-set x year-range configurations, 7 configurations x 8 runs (quick) / 13 x 160 (thorough); run 0 of each configuration is the unperturbed control and every other run must equal it byte for byte (reason lists inside one comment compared as multisets). A difference is reported with the perturbation minimised to the dimensions that matter. Clauses 2-6 are relations between artifacts of one execution: not decided.',
         'note': 'Trusted: the perturbation shim (sitecustomize.py) really intercepts time/datetime (wall clock only; monotonic clocks keep running), os.listdir/os.scandir, os.getpid, random, host and user names, the CPU count and the completion order of pools; the reconstructed source stands in for the original TZ release.',
         'design': '§5.C20',
